@@ -5,8 +5,10 @@ go 1.23
 toolchain go1.23.5
 
 require (
+	bazil.org/fuse v0.0.0-20230120002735-62a210ff1fd5
 	github.com/anishathalye/porcupine v1.3.0
 	github.com/superfly/litefs v0.0.0
+	github.com/superfly/ltx v0.3.14
 	pgregory.net/rapid v1.3.0
 )
 
@@ -20,7 +22,6 @@ require (
 	github.com/prometheus/client_model v0.2.0 // indirect
 	github.com/prometheus/common v0.37.0 // indirect
 	github.com/prometheus/procfs v0.8.0 // indirect
-	github.com/superfly/ltx v0.3.14 // indirect
 	golang.org/x/exp v0.0.0-20230515195305-f3d0a9c9a5cc // indirect
 	golang.org/x/sync v0.4.0 // indirect
 	golang.org/x/sys v0.13.0 // indirect
